@@ -391,6 +391,15 @@ class StmtMixin:
             st.env[t.id] = v
             return [(st, NEXT)]
         if isinstance(t, (ast.Tuple, ast.List)):
+            if isinstance(v, SVal) and isinstance(v.kind, KList):
+                # unpacking a list of symbolic length: ValueError unless it has exactly as many elements as targets
+                outs = []
+                tt, ff = self.fork(st, v.t[0] == len(t.elts))
+                if ff is not None:
+                    outs.append(self.exc_out(ff, ExcVal('ValueError')))
+                if tt is not None:
+                    outs += self.assign(t, TupleVal([ops.list_get(v, z3.IntVal(i_)) for i_ in range(len(t.elts))]), tt, fr)
+                return outs
             items = ops.tuple_items(v)
             if len(items) != len(t.elts):
                 raise CheckerError('unpack arity in %s' % fr.qual)
@@ -540,21 +549,40 @@ class StmtMixin:
         return outs
 
     def ex_With(self, s, st, fr):
-        # transparent context managers only (lc.LogContext); others via prelude
-        for it in s.items:
-            ce = it.context_expr
-            name = ast.unparse(ce.func) if isinstance(ce, ast.Call) else ast.unparse(ce)
-            if name == 'open' and len(ce.args) == 2 and isinstance(ce.args[1], ast.Constant) and ce.args[1].value == 'w':
-                pv = self.ev1(ce.args[0], st, fr)
-                self.open_for_write(st, pv)
+        return self.with_items(s, list(s.items), st, fr)
+
+    def with_items(self, s, items, st, fr):
+        # transparent context managers (lc.LogContext), open(..., 'w') of the file-system model, and objects of classes
+        # declared ctx=True (enter returns the object itself, exit has no modelled effect: close / commit)
+        if not items:
+            return self.ex(s.body, st, fr)
+        it = items[0]
+        ce = it.context_expr
+        name = ast.unparse(ce.func) if isinstance(ce, ast.Call) else ast.unparse(ce)
+        if name == 'open' and len(ce.args) == 2 and isinstance(ce.args[1], ast.Constant) and ce.args[1].value == 'w':
+            pv = self.ev1(ce.args[0], st, fr)
+            self.open_for_write(st, pv)
+            return self.with_items(s, items[1:], st, fr)
+        if name in self.TRANSPARENT_WITH:
+            self.stats['dropped'].add('with %s' % name)
+            if it.optional_vars is not None and isinstance(it.optional_vars, ast.Name):
+                st.env[it.optional_vars.id] = None
+            return self.with_items(s, items[1:], st, fr)
+        outs = []
+        for s2, v in self.ev(ce, st, fr):
+            if is_exc(v):
+                outs.append(self.exc_out(s2, v))
                 continue
-            if name in self.TRANSPARENT_WITH:
-                self.stats['dropped'].add('with %s' % name)
-                if it.optional_vars is not None and isinstance(it.optional_vars, ast.Name):
-                    st.env[it.optional_vars.id] = None
-                continue
-            raise CheckerError('unsupported context manager %s in %s' % (name, fr.qual))
-        return self.ex(s.body, st, fr)
+            sc = self.reg.classes.get(v.kind.cls) if isinstance(v, SVal) and isinstance(v.kind, KRef) else None
+            if sc is None or not getattr(sc, 'ctx', False):
+                raise CheckerError('unsupported context manager %s in %s' % (name, fr.qual))
+            self.stats['dropped'].add('with <%s object> (enter returns the object, exit not modelled)' % v.kind.cls)
+            if it.optional_vars is not None:
+                if not isinstance(it.optional_vars, ast.Name):
+                    raise CheckerError('with ... as <pattern>')
+                s2.env[it.optional_vars.id] = v
+            outs += self.with_items(s, items[1:], s2, fr)
+        return outs
 
     TRANSPARENT_WITH = {'lc.LogContext'}
 
